@@ -178,3 +178,37 @@ Definition eval_literal (src : list Z) : option (itok * Z) :=
 
 (* String#to_int(base): value.String.ToInt -> ParseInt -> ParseBigIntWithErr *)
 Definition to_int (s : list Z) (base : Z) : option Z := parse_bigint s base.
+
+(* ---------- vocabulary of the theorems (Props/C19.v): numerals "as written" ----------
+   A numeral is a list of written digits `wdigit` = (separator `_` in front?, upper case?, value),
+   see render_digits / digits_value in Model/C19_Inspect.v. *)
+(* every digit is a digit of base b *)
+Definition wd_ok (b : Z) (w : wdigit) : Prop := 0 <= snd w < b.
+(* a character that is neither `_` nor a digit of base b *)
+Definition bad_digit (b c : Z) : Prop :=
+  c <> 95 /\ match digit_val c with Some d => b <= d | None => True end.
+(* optional sign: None, Some false = `+`, Some true = `-` *)
+Definition sign_str (sg : option bool) : list Z :=
+  match sg with None => [] | Some false => [43] | Some true => [45] end.
+Definition sign_apply (sg : option bool) (v : Z) : Z :=
+  match sg with Some true => - v | _ => v end.
+(* the bases that have a prefix (0b 0q 0o 0d 0x); with 10 (no prefix) the bases of the lexer *)
+Definition prefixed_base (b : Z) : Prop := b = 2 \/ b = 4 \/ b = 8 \/ b = 12 \/ b = 16.
+Definition lexer_base (b : Z) : Prop := b = 10 \/ prefixed_base b.
+(* an unprefixed (decimal) literal cannot start with a separator: `_1` is an identifier *)
+Definition first_plain (ws : list wdigit) : Prop :=
+  match ws with w :: _ => fst (fst w) = false | [] => False end.
+(* suffix and range of every integer token kind *)
+Definition tok_suffix (k : itok) : list Z :=
+  match k with
+  | TInt => [] | TI8 => [105; 56] | TI16 => [105; 49; 54] | TI32 => [105; 51; 50] | TI64 => [105; 54; 52]
+  | TUInt => [117] | TU8 => [117; 56] | TU16 => [117; 49; 54] | TU32 => [117; 51; 50] | TU64 => [117; 54; 52]
+  end.
+(* the literal (before any unary sign) must be below this bound; Int is unbounded *)
+Definition tok_bound (k : itok) : option Z :=
+  match k with
+  | TInt => None | TI8 => Some (2 ^ 7) | TI16 => Some (2 ^ 15) | TI32 => Some (2 ^ 31) | TI64 => Some (2 ^ 63)
+  | TU8 => Some (2 ^ 8) | TU16 => Some (2 ^ 16) | TU32 => Some (2 ^ 32) | TU64 => Some (2 ^ 64) | TUInt => Some (2 ^ 64)
+  end.
+Definition in_bound (k : itok) (v : Z) : bool :=
+  match tok_bound k with Some m => v <? m | None => true end.
